@@ -24,6 +24,7 @@ struct State {
     int writer_tid = -1;
     int reads_done = 0;
     bool writer_done = false;
+    bool freeze_allowed = true;
 };
 State* S;
 
@@ -217,7 +218,10 @@ void run_std(bool with_throw)
 void freeze_writer(void*)
 {
     int k = gsim::knob("freeze_k", 0, 32);
-    gsim::freeze_arm(gsim::self(), k);
+    {
+        gsim::Oracle o;
+        if (S->freeze_allowed) gsim::freeze_arm(gsim::self(), k);
+    }
     do_modify(0);
     gsim::freeze_disarm(gsim::self());
     {
@@ -262,6 +266,10 @@ void run_freeze()
     gsim::ctr_wait_ge(1, nr);
     if (gsim::is_frozen(wt)) gsim::probe("lr.readers_completed_while_writer_frozen");
     else gsim::probe("lr.writer_finished_before_freeze_point");
+    {
+        gsim::Oracle o;
+        S->freeze_allowed = false;
+    }
     gsim::thaw(wt);
     gsim::freeze_disarm(wt);
     for (int t = 0; t < nr; t++) gsim::join(rt[t]);
